@@ -80,6 +80,15 @@ Definition phys_bank (n mode : Z) : bank :=
   else (* LR *) if mode =? M_hyp then Busr else mode_bank mode.
 Definition same_phys (n m1 m2 : Z) : bool := bank_eqb (phys_bank n m1) (phys_bank n m2).
 
+(* histories of writes to (register number, mode): the value the architecture says (n, m) holds is that
+   of the last write to an aliasing register *)
+Inductive rop := RWrite (n mode v : Z).
+Fixpoint last_write (ops : list rop) (n m : Z) (init : Z) : Z :=
+  match ops with
+  | [] => init
+  | RWrite n' m' v :: t => last_write t n m (if (n' =? n) && same_phys n' m' m then v else init)
+  end.
+
 (* ---------- B1.3.3 CPSRWriteByInstr, as a bit mask ----------
    bit i of the new CPSR is bit i of `value` where writable, else the old bit *)
 Definition merge (old new mask : Z) : Z := Z.lor (Z.land old (Z.lnot mask)) (Z.land new mask).
@@ -113,16 +122,37 @@ Definition cpsr_write_mask (x : sysctx) (cpsr value bytemask excp : Z) : Z :=
   let b3 := bit bytemask 3 =? 1 in let b2 := bit bytemask 2 =? 1 in
   let b1 := bit bytemask 1 =? 1 in let b0 := bit bytemask 0 =? 1 in
   let ex := negb (excp =? 0) in
-  (if b3 then mask_bits 31 27 else 0)
-  + (if b3 && ex then mask_bits 26 24 else 0)
-  + (if b2 then mask_bits 19 16 else 0)
-  + (if b1 && ex then mask_bits 15 10 else 0)
-  + (if b1 then mask_bits 9 9 else 0)
-  + (if b1 && priv && (sec || (scr_AW x =? 1) || negb (c_have_virt x =? 0)) then mask_bits 8 8 else 0)
-  + (if b0 && priv then mask_bits 7 7 else 0)
-  + (if b0 && priv && ((sctlr_NMFI x =? 0) || (bit value 6 =? 0))
-        && (sec || (scr_FW x =? 1) || negb (c_have_virt x =? 0)) then mask_bits 6 6 else 0)
-  + (if b0 && ex then mask_bits 5 5 else 0)
-  + (if b0 && priv && mode_write_ok x cpsr value excp then mask_bits 4 0 else 0).
+  Z.lor (if b3 then mask_bits 31 27 else 0)
+ (Z.lor (if b3 && ex then mask_bits 26 24 else 0)
+ (Z.lor (if b2 then mask_bits 19 16 else 0)
+ (Z.lor (if b1 && ex then mask_bits 15 10 else 0)
+ (Z.lor (if b1 then mask_bits 9 9 else 0)
+ (Z.lor (if b1 && priv && (sec || (scr_AW x =? 1) || negb (c_have_virt x =? 0)) then mask_bits 8 8 else 0)
+ (Z.lor (if b0 && priv then mask_bits 7 7 else 0)
+ (Z.lor (if b0 && priv && ((sctlr_NMFI x =? 0) || (bit value 6 =? 0))
+            && (sec || (scr_FW x =? 1) || negb (c_have_virt x =? 0)) then mask_bits 6 6 else 0)
+ (Z.lor (if b0 && ex then mask_bits 5 5 else 0)
+        (if b0 && priv && mode_write_ok x cpsr value excp then mask_bits 4 0 else 0))))))))).
+(* B1.3.3 CPSRWriteByInstr as the pseudocode writes it: a sequence of conditional field assignments.
+   CPSR.M is read (for the privilege and security tests) before any assignment can change it. *)
+Definition wfield (c : bool) (hi lo value p : Z) : Z := if c then insert p hi lo (bits value hi lo) else p.
 Definition CPSRWriteByInstr (x : sysctx) (cpsr value bytemask excp : Z) : Z :=
+  let priv := negb (psr_M cpsr =? M_usr) in
+  let sec := IsSecure x cpsr in
+  let b3 := bit bytemask 3 =? 1 in let b2 := bit bytemask 2 =? 1 in
+  let b1 := bit bytemask 1 =? 1 in let b0 := bit bytemask 0 =? 1 in
+  let ex := negb (excp =? 0) in
+  let p := wfield b3 31 27 value cpsr in
+  let p := wfield (b3 && ex) 26 24 value p in
+  let p := wfield b2 19 16 value p in
+  let p := wfield (b1 && ex) 15 10 value p in
+  let p := wfield b1 9 9 value p in
+  let p := wfield (b1 && priv && (sec || (scr_AW x =? 1) || negb (c_have_virt x =? 0))) 8 8 value p in
+  let p := wfield (b0 && priv) 7 7 value p in
+  let p := wfield (b0 && priv && ((sctlr_NMFI x =? 0) || (bit value 6 =? 0))
+                   && (sec || (scr_FW x =? 1) || negb (c_have_virt x =? 0))) 6 6 value p in
+  let p := wfield (b0 && ex) 5 5 value p in
+  wfield (b0 && priv && mode_write_ok x cpsr value excp) 4 0 value p.
+(* the same function as one masked merge (proved equal in Proofs/ArchFacts.v) *)
+Definition CPSRWriteByMask (x : sysctx) (cpsr value bytemask excp : Z) : Z :=
   merge cpsr value (cpsr_write_mask x cpsr value bytemask excp).
